@@ -294,8 +294,12 @@ func TestVerifTrie(t *testing.T) {
 			}
 			iter := [][2][]int{}
 			it := NewIterator(tr.NodeIterator(nil))
+			var kept [][2][]byte // as a caller would: collect the pairs, look at them after the walk
 			for it.Next() {
-				iter = append(iter, [2][]int{tints(it.Key), tints(it.Value)})
+				kept = append(kept, [2][]byte{it.Key, it.Value})
+			}
+			for _, kv := range kept {
+				iter = append(iter, [2][]int{tints(kv[0]), tints(kv[1])})
 			}
 			iterErr := ""
 			if it.Err != nil {
